@@ -179,12 +179,41 @@ pub fn exact_norm_triple_for(rng: &mut Prng, n: usize, target: i64, style: u64, 
     Some((msg, make_sig(n, &salt, &body), enc_pk(n, &h)))
 }
 
+/// a valid (message, signature, public key) triple and copies of the signature with ONE padding bit set: the first bit
+/// after the last terminator, the last bit of that byte, the first bit of the next byte, the very last bit of the
+/// string - every copy must be rejected (whichever function of the decoding path is in charge of the padding)
+pub fn padding_bit_ops(tier: &str, rng: &mut Prng, ops: &mut Vec<Case>) {
+    for n in [512usize, 1024] {
+        for _ in 0..(if tier == "thorough" { 6 } else { 1 }) {
+            if let Some((m, s, p)) = exact_norm_triple(rng, n, bound(n) - 4321, 0) {
+                ops.push(Case::new(format!("verify {n} {} {} {}", hex(&m), hex(&s), hex(&p))));
+                let body = &s[41..];
+                if let Some(v) = ref_decompress(body, n) {
+                    let used: usize = v.iter().map(|c| 9 + (c.unsigned_abs() >> 7) as usize).sum();
+                    let total = 8 * body.len();
+                    let mut cands = vec![used, (used | 7).min(total - 1), ((used | 7) + 1).min(total - 1), total - 1, used + (total - used) / 2];
+                    cands.sort();
+                    cands.dedup();
+                    for b in cands {
+                        if b >= used && b < total {
+                            let mut s2 = s.clone();
+                            s2[41 + b / 8] |= 0x80 >> (b % 8);
+                            ops.push(Case::new(format!("verify {n} {} {} {}", hex(&m), hex(&s2), hex(&p))));
+                        }
+                    }
+                }
+            }
+        }
+    }
+}
+
 pub fn generate(tier: &str, rng: &mut Prng) -> Vec<Case> {
     let mut ops = vec![];
     let thorough = tier == "thorough";
     let push = |ops: &mut Vec<Case>, n: usize, m: &[u8], s: &[u8], p: &[u8]| {
         ops.push(Case::new(format!("verify {n} {} {} {}", hex(m), hex(s), hex(p))));
     };
+    padding_bit_ops(tier, rng, &mut ops);
     for n in [512usize, 1024] {
         // norms exactly at, below and above the bound (and far away)
         let deltas: Vec<i64> = if thorough { (-8..=8).collect() } else { vec![-2, -1, 0, 1, 2] };
